@@ -23,7 +23,8 @@ CHECKS = {
         note=PIPE_NOTE),
     "C02": dict(
         category="exploration", design_ref="DESIGN.md §5 C02",
-        text=("Seeded operation histories (set_config of tracked / untracked / shared options, re-registration "
+        text=("Seeded operation histories (set_config of tracked / untracked / shared / child options of a strax child "
+              "plugin, re-registration "
               "with another default / version / class name / dependency / compressor, new_context, make, "
               "get_array, a second live context on the same directory, restart with only the simulated disk "
               "surviving, fuzzy contexts) against the real Context and file storage on SimFS. After every "
@@ -67,7 +68,7 @@ CHECKS = {
     "C11": dict(
         category="exploration", design_ref="DESIGN.md §5 C11",
         text=("Generated graphs with per-output save policies x stored subsets in two front-ends (readonly / "
-              "take_only / exclude) x targets, save=, request modifiers (selection, columns, time range, fuzzy, "
+              "take_only / exclude) x targets, save=, request modifiers (selection, kept / dropped columns, time range, fuzzy, "
               "allow_incomplete) and forbid_creation_of; a small reference planner written from the property "
               "predicts what must run, load, be saved where, and fail; observed through compute-call logs of the "
               "harness plugins (0 calls <=> must not run; each input row delivered once), rows, exception type "
@@ -106,7 +107,8 @@ CHECKS = {
               "write / rename of the new copy, or a failing read of the source. Oracle: same rows, C03 "
               "metadata consistency for every destination incl. new compressor / target size, source digest "
               "unchanged unless replaced, no temporary leftovers; under a fault a normal return still has to pass "
-              "all of that, and a raised error has to leave the source bit-identical."),
+              "all of that, a raised error has to leave the source bit-identical, and a failed copy / rewrite "
+              "must leave nothing wrong visible as complete in a destination."),
         note="Trusted: SimFS incl. TemporaryDirectory / move; process pools are a pickle-boundary stub on sim threads."),
     "C06": dict(
         category="exploration", design_ref="DESIGN.md §5 C06",
@@ -157,7 +159,7 @@ CHECKS = {
               "strax.mailbox code under a baton-passing scheduler that owns every lock, condition, thread, future "
               "and timeout: 1-4 subscribers, 0-12 messages, capacities 1-4, lazy/eager with driver masks, futures "
               "completed by concurrent workers, explicit out-of-order numbering, late-started readers and "
-              "multi-output dividers. Oracle: per-subscriber sequence equals the sent sequence, termination, no "
+              "multi-output dividers (also with a mailbox left out of `outputs` that has its own sender). Oracle: per-subscriber sequence equals the sent sequence, termination, no "
               "progress-by-timeout, and the capacity / read-pointer / garbage-collection invariants after every "
               "scheduler step. Sampling, not enumeration: right level for an unbounded schedule space; PCT gives "
               "a probabilistic guarantee for bugs of small pre-emption depth."),
